@@ -31,6 +31,7 @@ type c10Op struct {
 type c10Prot struct {
 	Kind  string `json:"kind"` // hold | compliance | governance | default-compliance | default-governance
 	Hours int    `json:"hours"`
+	Via   string `json:"via,omitempty"` // "" = Put*Retention / Put*LegalHold after the upload | put-headers | mpu-headers: lock headers on the creating request
 }
 
 type c10Prog struct {
@@ -69,6 +70,9 @@ func (c10) Gen(seed uint64, run int, tier string) *core.Case {
 	no := 1 + r.IntN(3)
 	for i := 0; i < no; i++ {
 		p.Objs = append(p.Objs, c10Prot{Kind: []string{"hold", "compliance", "governance", "default-compliance", "default-governance", "governance", "compliance"}[r.IntN(7)], Hours: []int{1, 24, 24 * 30, 24 * 400}[r.IntN(4)]})
+		if via := r.IntN(5); via >= 3 && !strings.HasPrefix(p.Objs[i].Kind, "default-") {
+			p.Objs[i].Via = []string{"put-headers", "mpu-headers"}[via-3]
+		}
 	}
 	n := 3 + r.IntN(13)
 	for i := 0; i < n; i++ {
@@ -279,6 +283,45 @@ func (c10) Exec(c *core.Case) (out *core.Outcome) {
 				// the gateway recorded it on the version (the rule itself has just been replaced, see above)
 				o.Probe("default_retention_not_recorded_on_the_version")
 				v.Default = true
+			}
+		} else if pr.Via != "" {
+			// the protection is declared on the request that creates the object
+			var lh []KV
+			mode := strings.ToUpper(pr.Kind)
+			until := now().Add(time.Duration(pr.Hours) * time.Hour)
+			if pr.Kind == "hold" {
+				lh = []KV{{K: "x-amz-object-lock-legal-hold", V: "ON"}}
+				v.Hold = true
+			} else {
+				lh = []KV{{K: "x-amz-object-lock-mode", V: mode}, {K: "x-amz-object-lock-retain-until-date", V: until.UTC().Format(time.RFC3339)}}
+				v.Mode, v.Until = mode, until.Truncate(time.Second)
+			}
+			var res *env.Result
+			if pr.Via == "put-headers" {
+				res = root.Do(s3c.PutObject(bkt, key, data, lh...))
+				mustOK(res, "put with lock headers")
+			} else {
+				cm := root.Do(s3c.CreateMPU(bkt, key, lh...))
+				mustOK(cm, "create upload with lock headers")
+				var init s3c.InitiateMPUResult
+				xml.Unmarshal(cm.Resp.Body, &init)
+				up := root.Do(s3c.UploadPart(bkt, key, init.UploadId, 1, data))
+				mustOK(up, "part of the upload with lock headers")
+				res = root.Do(s3c.CompleteMPU(bkt, key, init.UploadId, []s3c.CPart{{N: 1, ETag: up.Resp.Get("ETag")}}))
+				mustOK(res, "complete the upload with lock headers")
+			}
+			v.VID = res.Resp.Get("X-Amz-Version-Id")
+			if pr.Kind == "hold" {
+				rq := s3c.ObjectSub("GET", bkt, key, "legal-hold", nil)
+				hr := root.Do(rq)
+				if !hr.Resp.OK() || !strings.Contains(string(hr.Resp.Body), ">ON<") {
+					o.Violate("lock-circumvented", "C10/creation-headers/"+pr.Via+"/legal-hold-not-recorded", "set-up: the creating request (%s) carried x-amz-object-lock-legal-hold: ON and was acknowledged; GetObjectLegalHold -> %d %s", pr.Via, hr.Resp.Status, abbreviate(string(hr.Resp.Body), 80))
+					v.Hold = false
+					v.Data = nil
+				}
+			} else if gm, gu, ok := c10GetRetention(e, bkt, v, p.Versioned); !ok || gu.Before(v.Until.Add(-time.Second)) || gm != mode {
+				o.Violate("lock-circumvented", "C10/creation-headers/"+pr.Via+"/retention-not-recorded", "set-up: the creating request (%s) carried %s until %s and was acknowledged; the stored retention is %q until %s (readable=%v)", pr.Via, mode, v.Until.UTC().Format(time.RFC3339), gm, gu.UTC().Format(time.RFC3339), ok)
+				v.Data = nil
 			}
 		} else {
 			res := root.Do(s3c.PutObject(bkt, key, data))
